@@ -36,8 +36,19 @@ def enc(*xs):
     return ' '.join(fbits(x) for x in xs)
 
 
+VERDICTS = ('STATE:', 'DISAGREE:', 'ASYMMETRIC:')
+
+
 def is_err(s):
-    return s.startswith('ERR') or s == 'TIMEOUT'
+    """not a value: an exception class, a time-out, or a verdict of the implementation interpreter's own consistency
+    observations (`STATE:…` the answer changed after other coordinates were touched / on the second call,
+    `DISAGREE:…` the two distance families differ, `ASYMMETRIC:…`)"""
+    return s.startswith('ERR') or s == 'TIMEOUT' or s.startswith(VERDICTS)
+
+
+def bad(s):
+    """failure predicate of a non-value answer"""
+    return s.split(':', 1)[1] if s.startswith(VERDICTS) else 'raises'
 
 
 def parse(s):
@@ -55,7 +66,56 @@ def close(x, y, rel=1e-9, ab=1e-9):
 _bearing_calls = [0]
 
 
+COORD_AT = {'hav': ((0, 1), (2, 3)), 'hav2': ((0, 1), (2, 3)), 'xyz': ((0, 1), (2, 3)), 'bearing': ((0, 1), (2, 3)),
+            'shift': ((0, 1), (2, 3), (4, 1), (5, 3)), 'dest': ((0, 1),), 'destdeg': ((0, 1),), 'rot2': ((0, 1), (4, 5))}
+
+
+def coords_of(op, v):
+    if op == 'rot':
+        return [(v[0], v[1])] + [(v[i], v[i + 1]) for i in range(3, len(v), 2)]
+    return [(v[i], v[j]) for i, j in COORD_AT[op]]
+
+
+def _cached_names():
+    from functools import cached_property
+    from geostructures import Coordinate
+    return [n for n, a in vars(Coordinate).items() if isinstance(a, (cached_property, property))]
+
+
+def touch_lookalikes(pts):
+    """
+    Build coordinates that are *different* from, but easily confused with, the ones of the question — unit steps,
+    doubles / halves, sign flips, swapped axes, equal hash (CPython: hash(-1.0) == hash(-2.0)), equal position with a
+    Z / M value, -0.0 — and compute every cached or derived attribute of theirs.  Nothing of this may change any answer.
+    """
+    from geostructures import Coordinate
+    names = _cached_names()
+    for lon, lat in pts:
+        sib = [(lon - 1, lat), (lon + 1, lat), (lon, lat - 1), (lon, lat + 1), (2 * lon, lat), (lon, 2 * lat), (lon / 2, lat),
+               (lon, lat / 2), (-lon, lat), (lon, -lat), (-lon, -lat), (lat, lon), (-0.0 if lon == 0 else lon, -0.0 if lat == 0 else lat)]
+        objs = [Coordinate(x, max(-90.0, min(90.0, y))) for x, y in sib if abs(x) <= 360]
+        objs += [Coordinate(lon, lat, z=0.0), Coordinate(lon, lat, z=1.0), Coordinate(lon, lat, m=5.0)]
+        for c in objs:
+            hash(c)
+            c.to_float()
+            for n in names:
+                getattr(c, n)
+
+
 def impl(line):
+    """the answer of the real code to one question — asked, asked again after look-alike coordinates have been built and
+    their cached attributes computed, and (same objects) asked a third time: a calculator has no memory"""
+    cmd, *a = line.split()
+    op = cmd.split('.', 1)[1]
+    first = _answer(line)
+    touch_lookalikes(coords_of(op, floats(a)))
+    second = _answer(line)
+    if second != first:
+        return 'STATE:answer-changed-after-other-coordinates-were-used'
+    return first
+
+
+def _answer(line):
     from geostructures.calc import (bearing_degrees, haversine_distance_meters, inverse_haversine_degrees,
                                     inverse_haversine_radians, rotate_coordinates)
     from geostructures._geometry import dist_xyz_meters
@@ -86,7 +146,17 @@ def impl(line):
         s = inverse_haversine_radians(C(v[0], v[1]), math.radians(v[2]), v[3])
         return enc(r.longitude, r.latitude, s.longitude, s.latitude)
     if op == 'xyz':
-        return enc(dist_xyz_meters(C(v[0], v[1]), C(v[2], v[3])))
+        p, q = C(v[0], v[1]), C(v[2], v[3])
+        d = dist_xyz_meters(p, q)
+        # the same objects through the other distance family, the other argument order and once more
+        h, back, again = haversine_distance_meters(p, q), dist_xyz_meters(q, p), dist_xyz_meters(p, q)
+        if again != d:
+            return 'STATE:second-call-on-the-same-objects-differs'
+        if abs(back - d) > 1e-6:
+            return 'ASYMMETRIC:dist_xyz_meters'
+        if abs(h - d) > 0.25 + G.dist_tol(h):
+            return 'DISAGREE:haversine-vs-dist_xyz'
+        return enc(d)
     if op == 'rot':
         o = C(v[0], v[1])
         pts = [C(v[i], v[i + 1]) for i in range(3, len(v), 2)]
@@ -209,7 +279,7 @@ def why_dist(a, s):
     """each distance: a number in [0, pi R], within float tolerance of the great-circle distance;
     two distances on one line (symmetry, shift invariance) agree with each other"""
     if is_err(a):
-        return 'raises'
+        return bad(a)
     x, y = parse(a), parse(s)
     tol = G.dist_tol(y[0])
     if not all(0.0 <= d <= G.PI_R * (1 + 1e-15) for d in x):
@@ -223,14 +293,14 @@ def why_dist(a, s):
 
 def why_self(a, s):
     if is_err(a):
-        return 'raises'
+        return bad(a)
     return None if parse(a)[0] == 0.0 else 'self-distance-nonzero'
 
 
 def why_xyz(a, s):
     """never raises; the arccos form loses half the digits near 0 and pi: sqrt(2 ulp) * R = 0.13 m"""
     if is_err(a):
-        return 'raises'
+        return bad(a)
     (d,), (t,) = parse(a), parse(s)
     if not 0.0 <= d <= G.PI_R * (1 + 1e-15):
         return 'range'
@@ -239,7 +309,7 @@ def why_xyz(a, s):
 
 def why_bearing(a, s):
     if is_err(a):
-        return 'raises'
+        return bad(a)
     (b,), (az, d) = parse(a), parse(s)
     if not 0.0 <= b < 360.0:
         return 'range'
@@ -252,7 +322,7 @@ def why_dest(a, s):
     """every returned coordinate is a canonical coordinate within 2 cm of the oracle's destination (hence at
     the requested distance and initial bearing); both entry points return the identical coordinate"""
     if is_err(a):
-        return 'raises'
+        return bad(a)
     x, y = parse(a), parse(s)
     cap = y[-1]
     for i in range(0, len(x), 2):
@@ -270,7 +340,7 @@ def why_rot(a, s):
     point (complex multiplication in the plane un-wrapped around the origin, which has both properties by
     construction) within 1e-9 degrees"""
     if is_err(a):
-        return 'raises'
+        return bad(a)
     x, y = parse(a), parse(s)
     flag, y = y[-1], y[:-1]
     if len(x) == len(y) and all(
@@ -406,9 +476,14 @@ def check(run):
     def tagger(stream):
         return lambda ln, a: [f'{stream}:{kinds.get(ln, "-")}' + (':' + a if is_err(a) else '')]
 
+    asked = []          # (stream, line, answer) of everything asked in this process, in order
+
     def go(stream, op, lines):
-        return run.run_cases(stream, lines, impl, spec, compare=CMP.get(op), spec_compare=SPEC_OK[op],
-                             known_key=finding_key, tag=tagger(stream))
+        lines = list(lines)
+        out = run.run_cases(stream, lines, impl, spec, compare=CMP.get(op), spec_compare=SPEC_OK[op],
+                            known_key=finding_key, tag=tagger(stream))
+        asked.extend((stream, ln, a) for ln, a in zip(lines, out or []))
+        return out
 
     # 0. corpus: the witnesses of the repaired defects F07a-e, always run first
     cpath = common.os.path.join(common.CORPUS_DIR, 'C07.txt')
@@ -420,6 +495,40 @@ def check(run):
                 by_op.setdefault(op_of(ln), []).append(ln)
         for op, lns in by_op.items():
             go('corpus', op, lns)
+
+    # 0b. whole-degree lattice: every ordered pair of the 7 x 7 lattice -3..3 (CPython: hash(-1.0) == hash(-2.0)) through
+    #     every function family, plus other exactly integral degrees (poles, +-180, +-90, +-45 …) and +-0.0
+    lat7 = [(float(x), float(y)) for x in range(-3, 4) for y in range(-3, 4)]
+    special = [(-0.0, 0.0), (0.0, -0.0), (-0.0, -0.0), (-180.0, 0.0), (-180.0, -1.0), (179.0, 2.0), (-179.0, -2.0), (90.0, 45.0),
+               (-90.0, -45.0), (45.0, 90.0), (-1.0, -90.0), (-2.0, 89.0), (10.0, 60.0), (-120.0, -60.0), (1.0, -1.0), (2.0, -2.0)]
+    l_hav, l_xyz, l_brg = [], [], []
+    pairs = [(a, b) for a in lat7 for b in lat7]
+    pairs += [(rng.choice(lat7 + special), rng.choice(special)) for _ in range(run.scale(300, 3000))]
+    pairs += [((float(rng.randrange(-180, 180)), float(rng.randrange(-90, 91))), (float(rng.randrange(-180, 180)), float(rng.randrange(-90, 91))))
+              for _ in range(run.scale(300, 20000))]
+    if run.quick:
+        keep = set(rng.sample(range(len(pairs)), len(pairs) // 2))
+    for i, (a, b) in enumerate(pairs):
+        for lst, op in ((l_xyz, 'xyz'), (l_hav, 'hav2'), (l_brg, 'bearing')):
+            if op != 'xyz' and run.quick and i not in keep:
+                continue            # quick tier: every pair through dist_xyz, half of them through the other two
+            ln = f'gd.{op} {enc(a[0], a[1], b[0], b[1])}'
+            kinds[ln] = 'lattice'
+            lst.append(ln)
+    l_dest, l_deg, l_rot, l_rot2 = [], [], [], []
+    for _ in range(run.scale(400, 8000)):
+        a = rng.choice(lat7 + special[:3] + special[5:7] + special[12:])
+        bd = float(rng.choice([0, 45, 90, 135, 180, 225, 270, 315, 360, -1, -2, 1, 2]))
+        d = rng.choice([1.0, 2.0, 1000.0, G.R_EARTH * math.radians(1.0), G.R_EARTH * math.radians(2.0), 5e6])
+        l_dest.append(f'gd.dest {enc(a[0], a[1], math.radians(bd), d)}')
+        l_deg.append(f'gd.destdeg {enc(a[0], a[1], bd, d)}')
+        o, p, q = rng.choice(lat7), rng.choice(lat7), rng.choice(lat7)
+        deg = float(rng.choice([0, 90, 180, 270, -90, 45, -1, -2, 1, 2, 360]))
+        l_rot.append(f'gd.rot {enc(o[0], o[1], deg, p[0], p[1], q[0], q[1])}')
+        l_rot2.append(f'gd.rot2 {enc(o[0], o[1], deg, float(rng.choice([-2, -1, 1, 2, 90])), p[0], p[1])}')
+    for ln in l_dest + l_deg + l_rot + l_rot2:
+        kinds[ln] = 'lattice'
+    # (the lattice questions are asked first in the streams of their function below: one model driver per function)
 
     # 1. distance: both argument orders on one line (value, symmetry, range)
     n = run.scale(5000, 200000)
@@ -444,10 +553,10 @@ def check(run):
         x = f'gd.xyz {enc(a[0], a[1], a[0], a[1])}'
         kinds[x] = 'identical'
         xyzs.append(x)
-    go('distance-both-orders', 'hav2', lines)
+    go('distance-both-orders', 'hav2', l_hav + lines)
     run.run_cases('distance-self-zero', selfs, impl, spec, compare=cmp_values, spec_compare=_ok(why_self),
                   known_key=finding_key, tag=tagger('self'))
-    go('dist-xyz', 'xyz', xyzs)
+    go('dist-xyz', 'xyz', l_xyz + xyzs)
 
     # 2. common longitude shift (through the normalising constructor, i.e. also across the antimeridian)
     lines = []
@@ -479,7 +588,7 @@ def check(run):
         ln = f'gd.bearing {enc(a[0], a[1], b[0], b[1])}'
         kinds[ln] = kind
         lines.append(ln)
-    go('bearing', 'bearing', lines)
+    go('bearing', 'bearing', l_brg + lines)
 
     # 4. destination, radian and degree entry points
     lines_r, lines_d = [], []
@@ -502,8 +611,8 @@ def check(run):
         kinds[l1] = kinds[l2] = kind
         lines_r.append(l1)
         lines_d.append(l2)
-    go('destination-radians', 'dest', lines_r)
-    go('destination-degrees-vs-radians', 'destdeg', lines_d)
+    go('destination-radians', 'dest', l_dest + lines_r)
+    go('destination-degrees-vs-radians', 'destdeg', l_deg + lines_d)
 
     # 5. rotation about an origin: planar distance preserved, additive composition (I5: |lat| stays < 90)
     lines1, lines2 = [], []
@@ -543,20 +652,72 @@ def check(run):
         l2 = f'gd.rot2 {enc(olon, olat, al, be, pts[0], pts[1])}'
         kinds[l2] = kinds[ln]
         lines2.append(l2)
-    go('rotation', 'rot', lines1)
-    go('rotation-composition', 'rot2', lines2)
+    go('rotation', 'rot', l_rot + lines1)
+    go('rotation-composition', 'rot2', l_rot2 + lines2)
+
+    # 6. no memory: the same questions in a fresh interpreter, in another order, must get the same answers bit for bit
+    #    (module-level caches keyed by value / hash / id, defaults mutated in place, per-object caches that travel)
+    sample = [t for i, t in enumerate(asked) if kinds.get(t[1]) == 'lattice' or t[0] == 'corpus' or i % run.scale(6, 12) == 0]
+    rng.shuffle(sample)
+    second = other_process([t[1] for t in sample])
+    run.evaluations += len(sample)
+    run.stream_counts['fresh-process-other-order'] += len(sample)
+    for (stream, ln, a), b in zip(sample, second):
+        if a != b:
+            run.report(f'{SITE[op_of(ln)]}/answer-depends-on-call-history',
+                       f'fresh-process-other-order: {stream} answered {a[:60]} in this process and {b[:60]} in a fresh one',
+                       {'stream': 'fresh-process-other-order', 'line': ln, 'impl': a, 'spec': b})
+    run.note(f'fresh-process-other-order: {len(sample)} questions re-asked in a new interpreter in shuffled order')
 
     return run.finish(
         rule='a case is one protocol line (coordinate pair / start+bearing+distance / origin+angle+points); pairs are '
              'drawn per class (random, identical, near-coincident 1e-12..1e-3 deg, exactly and nearly antipodal, polar, '
              'antimeridian-straddling, same meridian/parallel), bearings at and +-1e-9..6e-6 deg around the eight '
              'cardinal directions, distances log-uniform 1 m..5000 km, destinations exactly onto a pole, longitude '
-             'shifts that move one or both points across the antimeridian; the class histogram is in `histogram`. '
+             'shifts that move one or both points across the antimeridian; every ordered pair of the whole-degree lattice '
+             '-3..3 x -3..3, other integral degrees (poles, +-180, +-90, +-45) and +-0.0 through every function (class '
+             '`lattice`); the class histogram is in `histogram`. '
              'All cases are non-trivial; distinct by line.',
-        assumptions=['IEEE-754 binary64 and libm (sin, cos, asin, acos, atan2, sqrt) are shared by CPython and the Lean '
+        assumptions=['a calculator has no memory: every question is asked twice in-process, the second time after look-alike '
+                     'coordinates (unit steps, doubles/halves, sign flips, swapped axes, equal CPython hash such as -1.0 / -2.0, '
+                     'same position with Z/M, -0.0) were built and all their cached / derived attributes computed (answer '
+                     'STATE:… if it changes); every dist_xyz question also checks symmetry, a repeated call and agreement with '
+                     'haversine on the same objects (0.25 m); a sample incl. all whole-degree-lattice questions is re-asked in '
+                     'a fresh interpreter in shuffled order and must match bit for bit (stream fresh-process-other-order)',
+                     'IEEE-754 binary64 and libm (sin, cos, asin, acos, atan2, sqrt) are shared by CPython and the Lean '
                      'runtime; float rounding error itself is measured (impl vs un-rounded model, impl vs oracle), not proved',
                      'the theorems are about the real-number semantics (Num instance at R) of the formula the Float '
                      'instance executes; round_half_up is an arbitrary function in the theorems',
                      'oracle tolerances: distances 1e-6 m (+2e-8 m / angular gap to the antipode), dist_xyz 0.25 m '
                      '(arccos conditioning), destination 2 cm, bearing 0.5e-5 deg rounding + conditioning'],
         checker_cmd='cd lean && lake build GeoVerif.Props.C07 && lake env lean .lake/audit/C07.lean  (#print axioms)')
+
+
+def other_process(lines):
+    """answers of a fresh interpreter (same repo, same TZ) to `lines` in the given order"""
+    import subprocess
+    import sys
+    if not lines:
+        return []
+    p = subprocess.run([sys.executable, '-W', 'ignore', common.os.path.abspath(__file__), '--worker'],
+                       input='\n'.join(lines) + '\n', capture_output=True, text=True, timeout=3000)
+    outs = p.stdout.split('\n')
+    if outs and outs[-1] == '':
+        outs.pop()
+    if p.returncode != 0 or len(outs) != len(lines):
+        raise common.InfraError(f'second interpreter: rc={p.returncode}, {len(outs)} answers for {len(lines)} lines; {p.stderr[-800:]}')
+    return outs
+
+
+if __name__ == '__main__':
+    import sys
+    if '--worker' in sys.argv:
+        common.import_repo()
+        for _ln in sys.stdin:
+            _ln = _ln.strip()
+            if not _ln:
+                continue
+            try:
+                print(impl(_ln))
+            except Exception as _e:  # noqa
+                print(common.err_name(_e))
